@@ -7,6 +7,7 @@ import (
 	"fmt"
 	"math/big"
 	"sort"
+	"regexp"
 	"strconv"
 	"strings"
 	"sync"
@@ -325,6 +326,9 @@ func dumpPrepared(e *kfl.Expression) string {
 
 type kgen struct {
 	r *Rand
+	// numeric literals of the query under generation: the record is biased towards holding
+	// them (as numbers and as numeric strings), so that equalities are often true
+	pref []string
 }
 
 type node struct {
@@ -332,8 +336,10 @@ type node struct {
 	ast  sx.Sx
 }
 
-var kflNumbers = []string{"0", "1", "2", "3", "5", "7", "12", "42", "100", "1234567", "1000000", "1.5", "3.14", "0.1", "2.5", "1234567.4", "999999", "10000000"}
+var kflNumbers = []string{"0", "1", "2", "3", "5", "7", "12", "42", "100", "1234567", "1000000", "1.5", "3.14", "0.1", "2.5", "1234567.4", "999999", "10000000", "16777217", "20000001", "123456789", "0.1000000001", "4294967297"}
 var kflStrings = []string{"", "hello", "x", "y", "12", "5", "1.5", "true", "null", "Chevrolet", "he", "lo", "api", "v1", "[REDACTED]"}
+var kflNumRe = regexp.MustCompile(`[0-9]+(\.[0-9]+)?`)
+
 var kflRegexes = []string{"h.*", "hel+o", "^he", "lo$", "x?y", ".*", "^hello$", "a.c", "z+"}
 var kflPaths = []string{"a", "b", "c", "d", "d.e", "d.n", "f", "s", "n", "t", "big", "neg", "arr", "zz", "d.zz", "c.*", "arr.*.x", "a.b.c", "d..e", "u.v.w"}
 
@@ -553,9 +559,21 @@ func (g *kgen) record() sx.Sx {
 		}
 	}
 	scalar := func() sx.Sx {
+		if len(g.pref) > 0 && r.Chance(45) {
+			p := g.pref[r.Intn(len(g.pref))]
+			if r.Chance(20) {
+				return sStr(p)
+			}
+			if strings.Contains(p, ".") {
+				return sFlt(p)
+			}
+			if n, err := strconv.ParseInt(p, 10, 64); err == nil {
+				return sInt(n)
+			}
+		}
 		switch r.Intn(8) {
 		case 0:
-			return sInt([]int64{0, 1, 5, 12, 1234567, -3, 1000000}[r.Intn(7)])
+			return sInt([]int64{0, 1, 5, 12, 1234567, -3, 1000000, 16777217, 20000001, 123456789, 4294967297}[r.Intn(11)])
 		case 1:
 			return sFlt([]string{"1.5", "0.1", "3.14", "1234567.4", "5.0", "-2.5"}[r.Intn(6)])
 		case 2:
@@ -569,7 +587,7 @@ func (g *kgen) record() sx.Sx {
 		}
 	}
 	add("a", func() sx.Sx {
-		if r.Chance(70) {
+		if r.Chance(70) && (len(g.pref) == 0 || r.Bool()) {
 			return sInt(5)
 		}
 		return scalar()
@@ -586,7 +604,11 @@ func (g *kgen) record() sx.Sx {
 	add("s", sStr("12"))
 	add("n", sx.A("null"))
 	add("t", sx.A("true"))
-	add("big", sInt(1234567))
+	if len(g.pref) > 0 && r.Bool() {
+		add("big", scalar())
+	} else {
+		add("big", sInt([]int64{1234567, 1234567, 16777217, 123456789}[r.Intn(4)]))
+	}
 	add("neg", sInt(-3))
 	add("arr", sArr(sObj(sx.S("x"), sInt(1)), sObj(sx.S("x"), sInt(2)), sObj(sx.S("x"), scalar())))
 	add("j", sStr(nested))
@@ -608,9 +630,58 @@ func genKflEval(r *Rand, tier string, emit func(sx.Sx)) {
 	if tier == "thorough" {
 		count = 80000
 	}
+	// coherence block: one comparison between a path and a number, the record holding that number
+	// (as integer, float or numeric string) or a neighbour of it, alone or inside an array
+	{
+		ident := func(p string) node { return callNode(p, sx.A("noparams"), sx.A("nosel"), p) }
+		lits := []string{"5", "1234567", "16777217", "20000001", "123456789", "4294967297", "9007199254740991", "0.1", "0.1000000001", "1234567.4", "-3"}
+		type shape struct {
+			path string
+			rec  func(v sx.Sx) sx.Sx
+		}
+		obj := func(kv ...sx.Sx) sx.Sx { return sx.L(append([]sx.Sx{sx.A("o")}, pairs(kv)...)...) }
+		shapes := []shape{
+			{"a", func(v sx.Sx) sx.Sx { return obj(sx.S("a"), v) }},
+			{"d.n", func(v sx.Sx) sx.Sx { return obj(sx.S("d"), sObj(sx.S("n"), v)) }},
+			{"c.*", func(v sx.Sx) sx.Sx { return obj(sx.S("c"), sArr(sInt(1), v, sInt(3))) }},
+			{"arr.*.x", func(v sx.Sx) sx.Sx { return obj(sx.S("arr"), sArr(sObj(sx.S("x"), sInt(1)), sObj(sx.S("x"), v))) }},
+		}
+		for _, lit := range lits {
+			for _, sh := range shapes {
+				var vals []sx.Sx
+				if strings.Contains(lit, ".") {
+					vals = []sx.Sx{sFlt(lit), sStr(lit)}
+				} else {
+					n, _ := strconv.ParseInt(lit, 10, 64)
+					vals = []sx.Sx{sInt(n), sStr(lit), sInt(n + 1), sInt(n - 1)}
+				}
+				for _, v := range vals {
+					for _, op := range []string{"==", "!=", ">=", "<=", ">", "<"} {
+						l, rr := ident(sh.path), node{lit, sx.L(sx.A("num"), sx.A(lit))}
+						if strings.HasPrefix(lit, "-") {
+							continue // a negative literal is a unary minus: left to the random part
+						}
+						if r.Bool() {
+							l, rr = rr, l
+						}
+						var q node
+						if op == "==" || op == "!=" {
+							q = node{l.text + " " + op + " " + rr.text, sx.L(sx.A("Q"), wrapC(wrapU(l)).ast, sx.A(op), wrapQ(wrapC(wrapU(rr))).ast)}
+						} else {
+							q = wrapQ(node{l.text + " " + op + " " + rr.text, sx.L(sx.A("C"), wrapU(l).ast, sx.A(op), wrapC(wrapU(rr)).ast)})
+						}
+						e := wrapE(wrapL(q))
+						emit(sx.L(sx.S(e.text), e.ast, sh.rec(v)))
+					}
+				}
+			}
+		}
+	}
 	for i := 0; i < count; i++ {
 		e := g.expr(2)
+		g.pref = kflNumRe.FindAllString(e.text, -1)
 		emit(sx.L(sx.S(e.text), e.ast, g.record()))
+		g.pref = nil
 	}
 }
 
@@ -644,7 +715,8 @@ func genKflFuzz(r *Rand, tier string, emit func(sx.Sx)) {
 	}
 	fixed := []string{"a.(\"x\")", "a.json(\"x\")", "a.now(5)", "x.xml().a.c == 1", "x.xml().a.b == 1", "j.json()[`a\"b`] == 1", "j.xml()[`a\"b`] == 1",
 		"a. == 1", "now.x(1)", "a.redact()", "redact", "json()", "json().a", "xml()[0]", "limit", "seconds(a)", "a.seconds(b.c)", "limit(-1)", "limit(1e30)",
-		"a == r\"(\"", "a == r\"[\"", "datetime(\"x\")", "a.datetime(1,2,3)", "redact(\"x.xml().a.b\")", "redact(\"xb.xml().a.b\")", "redact(\"j.json().k\", \"jb.json().k\")",
+		"a == r\"(\"", "a == r\"[\"", "b == r\"[\" and a == 5", "r\"(\" == b", "b != r\"*a\" or a == 1", "(b == r\"[\") and true", "b == r\"[\" and b == r\"h.*\"",
+		"b.startsWith(r\"[\") and a == 5", "!(b == r\"(\") or a == 5", "d.e == r\"(?P<x\" and a == 5", "datetime(\"x\")", "a.datetime(1,2,3)", "redact(\"x.xml().a.b\")", "redact(\"xb.xml().a.b\")", "redact(\"j.json().k\", \"jb.json().k\")",
 		"redact(\"..\")", "redact(\"\")", "redact(\"$\")", "redact(\"[\")", "redact(1)", "redact(nil)", "redact(a)", "redact(\"g.json().x\")", "redact(\"c.json().x\")", "redact(\"x.xml()\")",
 		"x.xml()", "x.xml().a", "x.xml()..b", "x.xml()[0]", "g.xml().a", "g.json().a", "c.json().a", "d.json().e", "a.b.c.d.e.f", "c[99999999999999999999]", "c[-1]", "a[*]", "a.*.*.*",
 		"", " ", "(", ")", "()", "((((", "and", "or or", "!", "-", "!!!!!!!!a", "--------a", "a ==", "== a", "a == == a", "\"", "\"abc", "r\"", "'c'", "`raw`", "a.b(", "a.b(,)", "a.b(x:)", "a.b(x: 1, y: 2, 3)",
@@ -654,7 +726,7 @@ func genKflFuzz(r *Rand, tier string, emit func(sx.Sx)) {
 	}
 	// every helper with 0..3 arguments of every kind, as function and as method
 	helpers := []string{"startsWith", "endsWith", "contains", "datetime", "limit", "json", "xml", "redact", "now", "seconds", "minutes", "hours", "days", "weeks", "months", "years", "nosuch"}
-	kinds := []string{"\"s\"", "5", "1.5", "true", "nil", "a", "zz", "r\"x\"", "(a == 1)", "c.*", "-1", "\"\""}
+	kinds := []string{"\"s\"", "5", "1.5", "true", "nil", "a", "zz", "r\"x\"", "(a == 1)", "c.*", "-1", "\"\"", "r\"[\""}
 	for _, h := range helpers {
 		for n := 0; n <= 3; n++ {
 			for rep := 0; rep < 3; rep++ {
